@@ -466,7 +466,7 @@ def read_associate_def(line: str):
         if match_char < 0:
             return "assoc", []
         var_words = separate_def_list(trailing_line[:match_char].strip())
-        return "assoc", var_words
+        return "assoc", var_words or []
 
 
 def read_select_def(line: str):
